@@ -142,11 +142,20 @@ def batch_case(draw):
     # synchronisation vectors (pairs that must be disjoint): a request is then computed together with the requests of its
     # vectors, in the order of the vector - and still independently of every other request and of the batch order
     sync = []
-    if n >= 4 and draw(st.integers(0, 5)) == 0:
+    if n >= 4 and draw(st.integers(0, 4)) == 0:
         # two separate vectors holding requests between the same two sites (told apart by their number of channels)
         a, b, c, d = draw(st.permutations(list(range(n))))[:4]
         for twin, of in ((c, a),) + (((d, b),) if draw(st.booleans()) else ()):
             reqs[twin] = dict(copy.deepcopy(reqs[of]), nch=41 + twin)
+        others = [x for x in range(truth['n']) if x not in (reqs[a]['src'], reqs[a]['dst'])]
+        if others and draw(st.booleans()):
+            # the partner of the first leaves a third site towards the source, the partner of the twin runs the other way:
+            # a route that no combination of the first vector can use is the one the second vector relies on
+            def plain(src, dst, i):
+                return {'src': src, 'dst': dst, 'kind': 'ordinary', 'bidir': False, 'include': [], 'mode': 'm0',
+                        'spacing': 50e9, 'nch': 41 + i}
+            reqs[b] = plain(draw(st.sampled_from(others)), reqs[a]['src'], b)
+            reqs[d] = plain(reqs[a]['dst'], reqs[a]['src'], d)
         sync = [[a, b], [c, d]]
     elif n >= 2 and draw(st.integers(0, 2)) == 0:
         for _ in range(draw(st.integers(1, 2))):
